@@ -200,6 +200,8 @@ use std::{
 
 pub mod parse;
 pub mod read;
+#[cfg(sierradb_verif)]
+pub mod verif;
 pub mod write;
 
 const LEN_SIZE: usize = mem::size_of::<u32>();
